@@ -1,12 +1,12 @@
 CONSTANTS
   N = 4
   Graphs <- Named4
-  Faults = {"start", "run", "exit", "stop"}
+  Faults = {"start", "run", "exit"}
   AwaitStoppingInner = TRUE
   LateStart = FALSE
 INIT InitMain
 NEXT Next
 VIEW view
-INVARIANTS TypeOK StopOrderState FailurePropagates
+INVARIANTS TypeOK StopOrderState FailurePropagates FailureIsReported
 PROPERTIES StartAfterDeps StopAfterDependants
 CHECK_DEADLOCK TRUE
